@@ -6,8 +6,10 @@ driven through the normal Python API in supervised workers:
     with isolated nodes / self-loops / parallel edges / a single node x sampling policies x request lists with
     empty tails x processing modes x states with zeros, fractions, large counts x 1-3 species x 0-3 reactions
     x seed window);
-  * E2: the C10 lifecycle histories (one and two objects) on the sanitized build.
-Oracle: no sanitizer report, no assertion abort, no signal; outputs equal the plain build's.
+  * E2: the C10 lifecycle histories (one and two objects) on the sanitized build;
+  * E3: a catalogue of runs under each of 4 fill patterns of freshly allocated memory (child processes).
+Oracle: no sanitizer report, no assertion abort, no signal; outputs equal the plain build's and do not depend on the
+fill pattern.
 """
 import itertools
 
